@@ -1,6 +1,6 @@
 """C18 — snapshot operations honour the tree lock (schedules).
 
-Five kinds of cases, all evaluated by the Coq lock machine (CaseLock.run18) and by the code:
+Seven kinds of cases, all evaluated by the Coq lock machine (CaseLock.run18) and by the code:
 
   sched  arbitrary thread programs (Acq/Rel/Read/Write) under an arbitrary schedule, re-executed by REAL
          threads on the `_lock` object of a real nutree Tree, one event per scheduler tick
@@ -21,6 +21,14 @@ Five kinds of cases, all evaluated by the Coq lock machine (CaseLock.run18) and 
          tick enabled) and the versions the readers saw must be the machine's; oracle: no snapshot with an odd
          number of a writer's nodes, nothing executed without the lock.  (Not replayable bit for bit: the
          interleaving is the scheduler's.)
+
+  after  an operation RAISES (refused copy_to, unwritable path, failing predicate/mapper, ...), the caller
+         catches; then ANOTHER thread must be able to enter `with tree:` and run every operation with the
+         results it gave before, and the target tree's lock must be free ("depth returns to 0" on the
+         exceptional exit); the raising thread is kept alive meanwhile (thread idents are reused);
+  inv    the owner calls an operation INSIDE `with tree:` while a reader is ALREADY blocked on the tree lock
+         (signalled by a probe wrapper of the lock): the owner must complete (re-entrancy; no second lock
+         taken in the opposite order), then the reader completes on the committed state.
 
 Waiting for something that must NOT happen (0.12 s) can only fail to detect; waiting for something that
 must happen is bounded by 20 s (a false alarm needs a 20 s stall of a trivial operation).
@@ -147,6 +155,7 @@ class RecLock:
 
 
 _STATE = {"deadlock_seen": False}
+_FAILED: dict = {}      # digest(desc) -> first failing Case of a real-thread scenario (see Prop.run)
 
 
 def T(long):
@@ -197,6 +206,26 @@ class FreeLock:
         return self.real._is_owned()
 
 
+class ProbeLock:
+    """Wrapper that tells when a registered thread is about to wait for the tree lock."""
+
+    def __init__(self, real):
+        self.real = real
+        self.waiting: dict = {}          # thread ident -> Event set right before its acquire()
+
+    def acquire(self, *a, **k):
+        ev = self.waiting.get(threading.get_ident())
+        if ev is not None:
+            ev.set()
+        return self.real.acquire(*a, **k)
+
+    def release(self):
+        self.real.release()
+
+    def _is_owned(self):
+        return self.real._is_owned()
+
+
 def record(tree, fn):
     """Run fn() (guarded) with recording armed for `tree` in the thread that runs it;
     (raw trace, result, finished)."""
@@ -224,6 +253,7 @@ def collapse(tr):
 # trees, snapshot operations, canonical results
 # ---------------------------------------------------------------------------
 SHAPES = {          # small ordered forests: nested tuples of children
+    "empty": (),
     "one": ((),),
     "chain": ((((),),),),
     "wide": ((), (), ()),
@@ -284,16 +314,41 @@ def op_filtered(tree, tmp):
     return canon(tree.filtered(lambda n: True))
 
 
-def op_copy_to(tree, tmp):
+def _target_for(tree):
     target = TypedTree("dst") if isinstance(tree, TypedTree) else Tree("dst")
+    tree.__dict__["_c18_target"] = target      # so that a later probe can ask whether ITS lock is free too
+    return target
+
+
+def op_copy_to(tree, tmp):
+    target = _target_for(tree)
     tree.copy_to(target)
     return canon(target)
 
 
 def op_copy_to_shallow(tree, tmp):
-    target = TypedTree("dst") if isinstance(tree, TypedTree) else Tree("dst")
+    target = _target_for(tree)
     tree.copy_to(target, deep=False)
     return canon(target)
+
+
+def op_copy_to_dup(tree, tmp):
+    """Refused copy: the target already has a top node with the data of the source's first top node."""
+    target = _target_for(tree)
+    if isinstance(tree, TypedTree):          # build_tree: the first top node is "n0" of kind KINDS[0]
+        target.add("n0", kind=KINDS[0])       # (constants: the harness must not read the armed tree itself)
+    else:
+        target.add("n0")
+    tree.copy_to(target)                       # UniqueConstraintError
+    return canon(target)
+
+
+def op_save_bad_path(tree, tmp):
+    tree.save(f"{tmp}/no_such_dir/x.json")      # FileNotFoundError
+
+
+def op_to_dotfile_bad_path(tree, tmp):
+    tree.to_dotfile(f"{tmp}/no_such_dir/x.gv")  # FileNotFoundError
 
 
 def op_to_dict_list(tree, tmp):
@@ -390,14 +445,24 @@ OPS = {
     "to_dotfile_mapper_raises": ("to_dotfile", op_to_dotfile_mapper_raises),
     "filtered_none": ("filtered", op_filtered_none),
     "to_dotfile_fmt_stream": ("to_dotfile", op_to_dotfile_fmt_stream),
+    # refusals that callers catch
+    "copy_to_dup": ("copy_to", op_copy_to_dup),
+    "save_bad_path": ("save", op_save_bad_path),
+    "to_dotfile_bad_path": ("to_dotfile", op_to_dotfile_bad_path),
 }
 #: refusing paths of the skeletons (no read, no lock): recorded traces only
 TRACE_ONLY_OPS = {"filtered_none", "to_dotfile_fmt_stream"}
 #: failing operations: every state gives the same (error) result, so nothing to compare in `park`
-NO_PARK_OPS = TRACE_ONLY_OPS | {"copy_pred_raises", "to_dict_list_mapper_raises", "save_mapper_raises", "to_dotfile_mapper_raises"}
+NO_PARK_OPS = TRACE_ONLY_OPS | {"copy_pred_raises", "to_dict_list_mapper_raises", "save_mapper_raises", "to_dotfile_mapper_raises",
+                                "copy_to_dup", "save_bad_path", "to_dotfile_bad_path"}
+#: operations that raise / are refused (the caller catches): afterwards the tree must be usable by OTHER threads
+RAISING_OPS = sorted(NO_PARK_OPS)
+#: operations that complete: what "another thread runs every operation" means
+GOOD_OPS = ["copy", "copy_pred", "filtered", "copy_to", "copy_to_shallow", "to_dict_list", "save", "save_path",
+            "to_dotfile", "to_dotfile_path", "with"]
 #: operations that fail on typed trees for reasons that belong to other properties (D21/D22/D24:
 #: typed copies); their lock trace is still checked, their results are not compared across states
-TYPED_RESULT_UNUSABLE = {"copy_pred", "filtered"}
+TYPED_RESULT_UNUSABLE: set = set()     # (typed copies were repaired on main: D21/D22)
 
 
 def label_of(tree, op):
@@ -467,9 +532,15 @@ def trace_oracle(tr, label):
     return None
 
 
-def trace_obs(tr):
+def trace_obs(tr, member=True):
     ok, sections, writes, _ = trace_facts(tr)
-    return [True, ok, sections, writes]     # first item: "is an unfolding of the generated skeleton" (claimed)
+    return [member, ok, sections, writes]   # first item: "is an unfolding of the generated skeleton" (claimed)
+
+
+#: operations that leave by an exception raised OUTSIDE the innermost reading section (the file cannot be
+#: opened): the skeletons have no exceptional exits, so no unfolding is claimed for their traces (label
+#: "exc:<label>" is unknown to the model); the bracket discipline of the trace is still checked
+EXC_EXIT_OPS = {"save_bad_path", "to_dotfile_bad_path"}
 
 
 # ---------------------------------------------------------------------------
@@ -673,8 +744,13 @@ class Prop:
         "real-thread cases wait a bounded time (0.12 s) for a reader that must NOT finish: this can miss a violation, never invent one",
     ]
     trusted = [
-        "C18: the ast walk that lifts lock skeletons (gen_facts.lock_skeleton: which attributes count as structure reads, taint of "
-        "derived names) and the recording instrumentation of harness/props/C18.py",
+        "C18: the ast walk that lifts lock skeletons (gen_facts.lock_skeleton): the whitelists of structural attributes, of "
+        "materialising builtins, of detaching (to_dict) and non-retaining (_add_from) methods, and its taint rules - every store of a "
+        "live (possibly lazy) view taints the name it is reachable from (names, tuple/starred/walrus targets, the base of "
+        "attribute/subscript/augmented targets, receivers of calls given a live argument), results of calls given a live argument "
+        "are live, `return` of a live view inside the bracket, yield/await, global/nonlocal and stores through the tree object are "
+        "refused; self-tested on 33 escaping and 9 materialising synthetic methods (harness/test_gen_facts_lock.py, run by every "
+        "check) - and the recording instrumentation of harness/props/C18.py",
     ]
     manifest = dict(
         text=("Machine-checked theorems (Coq 8.16, no axioms) about a lock machine (threads = lists of Acq/Rel/Read/Write, state = owner, "
@@ -720,6 +796,27 @@ class Prop:
                     continue
                 for nw1, nw2 in parks:
                     yield dict(k="park", typed=typed, op=op, shape="mixed" if (nw1, nw2) == (1, 1) else "chain", nw1=nw1, nw2=nw2)
+        # self-tests of the lock-skeleton extractor (harness/test_gen_facts_lock.py): lazy views that survive the block
+        import test_gen_facts_lock as TL
+        for name in list(TL.BAD) + list(TL.GOOD):
+            yield dict(k="extractor", shape=name)
+        # an operation raised / was refused (the caller caught it); then ANOTHER thread uses the tree
+        for typed in (False, True):
+            for op in RAISING_OPS:
+                yield dict(k="after", typed=typed, op=op, shape="mixed")
+            yield dict(k="after", typed=typed, op="copy_to", shape="empty")      # ValueError: nothing to copy
+            yield dict(k="trace", typed=typed, op="copy_to", shape="empty")
+            if thorough:
+                for op in RAISING_OPS:
+                    yield dict(k="after", typed=typed, op=op, shape="deep")
+        # the owner calls an operation inside `with tree:` while a reader is already blocked on the tree lock
+        pairs = [(op, op) for op in GOOD_OPS] + [("save_path", "to_dotfile_path"), ("to_dotfile_path", "save_path"),
+                                                  ("save_path", "save"), ("with", "save_path")]
+        if thorough:
+            pairs += [(a, b) for a in ("save_path", "to_dotfile_path", "copy_to", "save") for b in GOOD_OPS if a != b]
+        for typed in (False, True):
+            for rop, wop in pairs:
+                yield dict(k="inv", typed=typed, rop=rop, wop=wop, shape="mixed", nw1=1, nw2=1)
         free_ops = ["copy", "copy_to", "to_dict_list", "save", "save_path", "to_dotfile", "with", "copy_to_shallow", "to_dotfile_path"]
         for r in range(3 if not thorough else 24):
             typed = bool(r % 2)
@@ -776,6 +873,21 @@ class Prop:
         k = desc["k"]
         if k == "sched":
             return self.run_sched(desc)
+        if k == "extractor":
+            return self.run_extractor(desc)
+        # a real-thread scenario that FAILED may have left threads stuck for ever (holding a class-level lock,
+        # say): running it again in this process observes the debris, not the scenario.  The first failing
+        # verdict is kept for the rest of the process; `--replay` (a fresh process) runs it afresh.
+        key = H.digest(desc)
+        if key in _FAILED:
+            return _FAILED[key]
+        c = self._run_threads(desc)
+        if c.oracle_fail and k in ("park", "owner", "free", "after", "inv"):
+            _FAILED[key] = c
+        return c
+
+    def _run_threads(self, desc) -> Case:
+        k = desc["k"]
         tmp = tempfile.mkdtemp(prefix="c18_", dir=str(H.WORK))
         try:
             if k == "trace":
@@ -786,9 +898,33 @@ class Prop:
                 return self.run_owner(desc, tmp)
             if k == "free":
                 return self.run_free(desc, tmp)
+            if k == "after":
+                return self.run_after(desc, tmp)
+            if k == "inv":
+                return self.run_inv(desc, tmp)
         finally:
             shutil.rmtree(tmp, ignore_errors=True)
         raise ValueError(k)
+
+    # --- extractor: the trusted lexical walk of gen_facts, on synthetic methods (audit finding C18/1)
+    def run_extractor(self, desc):
+        import test_gen_facts_lock as TL
+
+        name = desc["shape"]
+        ok, outcome, paths = TL.check(name)
+        bad = name in TL.BAD
+        flat = [[{"A": A, "L": L, "R": R}[e] for e in p if isinstance(e, str)] for p in (paths or [])]
+        # the path shown to the model: an unbracketed one for a BAD shape, the first one otherwise
+        tr = next((p for p in flat if not py_bracketed(p)), flat[0] if flat else []) if bad else (flat[0] if flat else [])
+        fail = None
+        if not ok:
+            fail = (f"extractor: gen_facts.lock_skeleton on the synthetic method `{name}` "
+                    + ("lifts a bracketed skeleton although a lazy view of the tree is consumed after the release"
+                       if bad else f"does not lift the bracketed skeleton of a materialising method ({outcome})"))
+        coq = f"CTrace {H.coq_text('exc:extractor')} {H.coq_list(str(e) for e in tr)}"
+        return Case(desc=desc, coq_input=coq, impl_obs=trace_obs(tr, member=False), oracle_fail=fail, nontrivial=bool(paths),
+                    key=H.digest(desc), stats=dict(kind="extractor", expected="unbracketed-or-refused" if bad else "bracketed",
+                                                   outcome=outcome.split(":")[0]))
 
     # --- sched
     def run_sched(self, desc):
@@ -823,8 +959,9 @@ class Prop:
             fail = (f"trace: {label} [{''.join(EV_NAMES[e] for e in tr)}]: the operation does not return "
                     "(it blocks on the lock its own thread holds: the lock is not re-entrant)")
         res = res or "ERR:hang"
-        coq = f"CTrace {H.coq_text(label)} {H.coq_list(str(e) for e in tr)}"
-        return Case(desc=desc, coq_input=coq, impl_obs=trace_obs(tr), oracle_fail=fail, nontrivial=R in tr,
+        exc = desc["op"] in EXC_EXIT_OPS
+        coq = f"CTrace {H.coq_text(('exc:' if exc else '') + label)} {H.coq_list(str(e) for e in tr)}"
+        return Case(desc=desc, coq_input=coq, impl_obs=trace_obs(tr, member=not exc), oracle_fail=fail, nontrivial=R in tr,
                     key=H.digest(desc), stats=dict(kind="trace", label=label, trace="".join(EV_NAMES[e] for e in tr),
                                                    raw_events=min(nraw // 10 * 10, 200), result_error=res.startswith("ERR")))
 
@@ -897,6 +1034,163 @@ class Prop:
         coq = f"CPark {H.coq_text(label)} {H.coq_list(str(e) for e in tr)} {nw1} {nw2}"
         return Case(desc=desc, coq_input=coq, impl_obs=[trace_obs(tr), obs_run], oracle_fail=fail, nontrivial=R in tr,
                     key=H.digest(desc), stats=dict(kind="park", label=label, early=bool(early), result_compared=usable))
+
+    # --- after: an operation raises (refusal, failing callback); the caller catches; then another thread
+    #     must be able to enter `with tree:` and run every operation ("depth returns to 0" on the exceptional exit)
+    def run_after(self, desc, tmp):
+        typed, op, shape = desc["typed"], desc["op"], desc["shape"]
+        tree = build_tree(typed, shape)
+        label = label_of(tree, op)
+        before = {g: run_op_guarded(tree, g, tmp) for g in GOOD_OPS} if shape != "empty" else {}
+        ygood = [g for g in GOOD_OPS if shape != "empty" or g not in ("copy_to", "copy_to_shallow")]
+        # the programs of the second thread: what each operation records single-threaded on an equal tree
+        ytr = []
+        for g in ygood:
+            _, _, t_g, _, _ = self._traced(dict(desc, op=g), tmp)
+            ytr.extend(t_g)
+        tree._lock = RecLock(tree._lock, tree)
+        # thread X runs the failing operation and then STAYS ALIVE until the probes are done (a finished
+        # thread's ident may be reused by the next thread, which would then "own" a leaked RLock)
+        raw: list = []
+        xdone, xexit = threading.Event(), threading.Event()
+        xbox = {}
+
+        def xbody():
+            _ARM.update(tree=tree, log=raw, tid=threading.get_ident())
+            try:
+                xbox["res"] = run_op(tree, op, tmp)
+            finally:
+                _ARM.update(tree=None, log=None, tid=None)
+                xdone.set()
+            xexit.wait(120)
+
+        threading.Thread(target=xbody, daemon=True).start()
+        finished = xdone.wait(T(20))
+        if not finished:
+            _STATE["deadlock_seen"] = True
+            _ARM.update(tree=None, log=None, tid=None)
+        res = xbox.get("res")
+        xtr = collapse(list(raw))
+        raised = bool(res and res.startswith("ERR"))
+        target = tree.__dict__.get("_c18_target")
+        out = {}
+
+        def second():
+            with tree:
+                out["with"] = True
+            for g in ygood:
+                out[g] = run_op(tree, g, tmp)
+            return True
+
+        y_ok, _ = guarded(second, T(10))
+        target_free = True
+        if target is not None:
+            # asked by a long-lived pool thread (never an ident that a finished thread may have had)
+            target_free = bool(pool(1)[0].call(lambda: (target._lock.acquire(blocking=False) and (target._lock.release() or True)) or False))
+        xexit.set()
+        fail = trace_oracle(xtr, label) if finished else f"after: {label}: the failing operation itself does not return"
+        if fail and fail.startswith("trace:"):
+            fail = "after:" + fail[len("trace:"):] + f" (the operation raised {res})"
+        name = "".join(EV_NAMES[e] for e in xtr)
+        if fail is None:
+            if not y_ok:
+                fail = (f"after: {label} [{name}] raised {res}; afterwards another thread hangs in `with tree:` / "
+                        f"{[g for g in ygood if g not in out][:1]} although no thread is inside a critical section")
+            elif not target_free:
+                fail = f"after: {label} raised {res}; afterwards the lock of the TARGET tree is still owned by the (finished) caller"
+            elif before and any(out[g] != before[g] for g in ygood if g in before):
+                bad = [g for g in ygood if g in before and out[g] != before[g]][0]
+                fail = f"after: {label} raised {res}; afterwards {bad} in another thread gives a different result than before"
+        elif not y_ok:
+            fail += "; afterwards another thread hangs in `with tree:` although no thread is inside a critical section"
+        ps = [xtr, [A, R, L] + ytr]
+        sched = [0] * len(xtr) + [1] * len(ps[1])
+        obs = [bool(finished and y_ok), bool(y_ok), all(py_bracketed(p) for p in ps), [[0] if y_ok else []]]
+        if not y_ok:                       # the model replays X's recorded events: it predicts how far Y gets
+            obs[3] = [[]]
+        coq = (f"CHist {H.coq_list(H.coq_list(str(e) for e in p) for p in ps)} {H.coq_list(str(t) for t in sched)} "
+               f"{H.coq_list(['1'])}")
+        return Case(desc=desc, coq_input=coq, impl_obs=obs, oracle_fail=fail, nontrivial=raised,
+                    key=H.digest(desc), stats=dict(kind="after", label=label, raised=raised, xtrace=name))
+
+    # --- inv: the owner calls an operation nested while a reader is ALREADY blocked on the tree lock
+    def run_inv(self, desc, tmp):
+        typed, rop, wop, nw1, nw2, shape = desc["typed"], desc["rop"], desc["wop"], desc["nw1"], desc["nw2"], desc["shape"]
+        _, label_r, tr_r, _, _ = self._traced(dict(desc, op=rop), tmp)
+        _, label_w, tr_w, _, _ = self._traced(dict(desc, op=wop), tmp)
+
+        def expected(op, k):               # the operation on an equal tree after k mutations, single-threaded
+            t = build_tree(typed, shape)
+            for i in range(k):
+                mutate(t, typed, i)
+            return run_op_guarded(t, op, tmp)
+
+        exp_mid, exp_fin = expected(wop, nw1), expected(rop, nw1 + nw2)
+        tree = build_tree(typed, shape)
+        plock = ProbeLock(tree._lock)
+        tree._lock = plock
+        parked, go_nested, nested_done, go_exit, r_waiting, r_done, w_done = (threading.Event() for _ in range(7))
+        box = {}
+
+        def writer():
+            with tree:
+                for i in range(nw1):
+                    mutate(tree, typed, i)
+                parked.set()
+                go_nested.wait(60)
+                box["mid"] = run_op(tree, wop, tmp)     # nested, while the reader waits for the tree lock
+                nested_done.set()
+                go_exit.wait(60)
+                for i in range(nw1, nw1 + nw2):
+                    mutate(tree, typed, i)
+            w_done.set()
+
+        def reader():
+            plock.waiting[threading.get_ident()] = r_waiting
+            box["res"] = run_op(tree, rop, tmp)
+            r_done.set()
+
+        tw = threading.Thread(target=writer, daemon=True)
+        tr_ = threading.Thread(target=reader, daemon=True)
+        tw.start()
+        parked.wait(T(20))
+        tr_.start()
+        reached = r_waiting.wait(T(20))     # the reader is at the tree lock (holding whatever it took before)
+        early = r_done.wait(0.03)
+        go_nested.set()
+        nested_ok = nested_done.wait(T(10))
+        if not nested_ok:
+            _STATE["deadlock_seen"] = True
+        go_exit.set()
+        wfin = w_done.wait(T(10))
+        late = r_done.wait(T(10))
+        free = bool(pool(1)[0].call(lambda: (tree._lock.acquire(blocking=False) and (tree._lock.release() or True)) or False))
+        seen_r = ([nw1 + nw2] if box.get("res") == exp_fin else [-1]) if R in tr_r else []
+        seen_w = ([nw1] if box.get("mid") == exp_mid else [-1]) if R in tr_w else []
+        obs_run = [bool(early), bool(nested_ok), bool(wfin), bool(late), seen_r, seen_w, free]
+        fail = trace_oracle(tr_r, label_r) or trace_oracle(tr_w, label_w)
+        if fail is None:
+            if not reached:
+                fail = (f"inv: {label_r}: the reader never reached the tree lock: it hangs before, on something a stuck "
+                        "thread still holds (a second lock taken before the tree lock)")
+            elif early:
+                fail = f"inv: {label_r}: reader completed while the writer was inside `with tree:`"
+            elif not nested_ok:
+                fail = (f"inv: DEADLOCK: the lock owner hangs in {wop} ({label_w}) inside its own `with tree:` while a reader "
+                        f"is blocked in {rop} ({label_r}): the reader holds something the owner needs (lock order)")
+            elif not wfin or not late:
+                fail = f"inv: {label_r}/{label_w}: {'writer' if not wfin else 'reader'} did not complete after the nested call"
+            elif seen_w not in ([nw1], []):
+                fail = f"inv: {label_w}: the owner's nested result is not its own current state"
+            elif seen_r not in ([nw1 + nw2], []):
+                fail = f"inv: {label_r}: the reader's result is not the committed state"
+            elif not free:
+                fail = "inv: lock not free at the end"
+        coq = (f"CInv {H.coq_text(label_r)} {H.coq_list(str(e) for e in tr_r)} {H.coq_text(label_w)} "
+               f"{H.coq_list(str(e) for e in tr_w)} {nw1} {nw2}")
+        return Case(desc=desc, coq_input=coq, impl_obs=[trace_obs(tr_r), trace_obs(tr_w), obs_run], oracle_fail=fail,
+                    nontrivial=R in tr_r and R in tr_w, key=H.digest(desc),
+                    stats=dict(kind="inv", reader=label_r, owner=label_w, reached=bool(reached)))
 
     # --- free: free-running writers and readers; the recorded global history is replayed on the machine
     def run_free(self, desc, tmp):
@@ -1057,8 +1351,9 @@ class Prop:
                 fail = f"owner: {label}: lock not free after the owner left all {nest} sections"
             elif seen != want:
                 fail = f"owner: {label}: result inside the section differs from the tree's state"
-        coq = f"COwner {H.coq_text(label)} {H.coq_list(str(e) for e in tr)} {nest}"
-        return Case(desc=desc, coq_input=coq, impl_obs=[trace_obs(tr), obs_run], oracle_fail=fail, nontrivial=R in tr,
+        exc = op in EXC_EXIT_OPS
+        coq = f"COwner {H.coq_text(('exc:' if exc else '') + label)} {H.coq_list(str(e) for e in tr)} {nest}"
+        return Case(desc=desc, coq_input=coq, impl_obs=[trace_obs(tr, member=not exc), obs_run], oracle_fail=fail, nontrivial=R in tr,
                     key=H.digest(desc), stats=dict(kind="owner", label=label, nest=nest))
 
 
